@@ -271,18 +271,89 @@ def oracle(case, impl):
     return None
 
 
+REL = ("=", "<>", "<", ">", "<=", ">=", "=<", "=>")
+
+
+def sign_scopes(e):
+    """for every unary sign in the source expression, what the tool's grammar (a sign takes a whole
+    `exp`) puts under it and Color BASIC (a sign takes a term) does not: returns the set of
+    {'power', 'logical', 'comparison'} found after a unary sign at its own parenthesis depth"""
+    try:
+        toks = S.dtokens(e)
+    except S.EvalError:
+        return set()
+    found = set()
+    for i, (k, t) in enumerate(toks):
+        if not (k == "op" and t in "+-"):
+            continue
+        prev = toks[i - 1] if i else (None, None)
+        unary = i == 0 or (prev[0] == "op" and prev[1] != ")") or (prev[0] == "kw" and prev[1] in ("AND", "OR", "NOT"))
+        if not unary:
+            continue
+        j = i + 1                      # the sign's own operand: further signs, then one primary
+        while j < len(toks) and toks[j][0] == "op" and toks[j][1] in "+-":
+            j += 1
+        if j < len(toks) and toks[j][0] in ("id", "kw", "num", "hex", "str"):
+            j += 1
+        if j < len(toks) and toks[j] == ("op", "("):
+            d = 0
+            while j < len(toks):
+                d += toks[j] == ("op", "(")
+                d -= toks[j] == ("op", ")")
+                j += 1
+                if d == 0:
+                    break
+        if j < len(toks) and toks[j] == ("op", "^"):
+            found.add("power")
+        depth = 0
+        for k2, t2 in toks[i + 1:]:
+            if (k2, t2) == ("op", "("):
+                depth += 1
+            elif (k2, t2) == ("op", ")"):
+                depth -= 1
+                if depth < 0:
+                    break
+            elif depth == 0:
+                if (k2, t2) == ("op", ","):
+                    break
+                if k2 == "kw" and t2 in ("AND", "OR"):
+                    found.add("logical")
+                elif k2 == "op" and t2 in REL:
+                    found.add("comparison")
+    return found
+
+
+def rel_as_number(t, cond):
+    """does the Color BASIC tree use a comparison's value as a number: a relational node anywhere
+    but in condition position (the root of an IF condition, or below AND/OR/NOT in such a position)"""
+    if t[0] == "bin":
+        if t[1] in REL:
+            return (not cond) or rel_as_number(t[2], False) or rel_as_number(t[3], False)
+        keep = cond and t[1] in ("AND", "OR")
+        return rel_as_number(t[2], keep) or rel_as_number(t[3], keep)
+    if t[0] == "un":
+        return rel_as_number(t[2], cond and t[1] == "NOT")
+    if t[0] in ("call", "arr"):
+        return any(rel_as_number(a, False) for a in t[2])
+    return False
+
+
 def classify(case, impl, why):
     e = case["expr"]
     blank = re.sub(r'"[^"]*"', '""', e)
-    if case["ctx"] not in ("if", "ifstr") and re.search(r"(<>|<=|>=|=<|=>|[<>=])", blank):
-        return "comparison-outside-if"
+    try:
+        if rel_as_number(S.decb_parse(e), case["ctx"] in ("if", "ifstr")):
+            return "comparison-outside-if"
+    except S.EvalError:
+        pass
     if re.search(r"\bNOT\b", blank) and (re.search(r"\b(AND|OR)\b", blank) or case["ctx"] == "if"):
         return "not-scope"
-    if re.search(r"[-+] *[A-Z0-9.&(]+ *\^", blank) or re.search(r"[-+] *\(", blank) and "^" in blank:
+    sc = sign_scopes(blank)
+    if "power" in sc:
         return "sign-before-power"
-    if re.search(r"(^|[-+*/^(=<>,]) *[-+].*\b(AND|OR)\b", blank):
+    if "logical" in sc:
         return "sign-scope-over-logical"
-    if case["ctx"] == "if" and re.match(r" *[-+]", blank) and re.search(r"(<>|<=|>=|=<|=>|[<>=])", blank):
+    if case["ctx"] == "if" and "comparison" in sc:
         return "sign-scope-over-comparison"
     if case["ctx"] == "if" and case["ekind"] == "num" and re.search(r"\b(AND|OR|NOT)\b", blank):
         return "numeric-logical-condition"
